@@ -2,6 +2,9 @@ package main
 
 import (
 	"fmt"
+	"go/token"
+	"go/types"
+	"sort"
 	"strings"
 
 	"golang.org/x/tools/go/ssa"
@@ -21,7 +24,9 @@ func init() {
 			{ID: "R10a", Floor: 1, Doc: "replace-roots: size guard from file positions, constant O_RDWR open, write of the encoded header at the version's header offset", Run: ruleR10a},
 			{ID: "R10b", Floor: 1, Doc: "extract: seek/copy window from the parsed header, no O_TRUNC, guarded truncate", Run: ruleR10b},
 			{ID: "R10c", Floor: 1, Doc: "wrap: pragma, header(size from SeekEnd), source from start, index — in order", Run: ruleR10c},
+			{ID: "R10e", Floor: 1, Doc: "extraction depends on the payload window only: the header fields that can influence ExtractV1File after parsing are DataOffset and DataSize (an archive without index, or with any IndexOffset/characteristics, extracts the same)", Run: ruleR10e},
 			{ID: "R10d", Floor: 2, Doc: "reader windows from header fields", Run: ruleR10d},
+			{ID: "R10f", Floor: 2, Doc: "the index a wrap writes records true section offsets (= R03b)", Run: ruleR03b},
 		},
 	})
 }
@@ -97,6 +102,34 @@ func ruleR10a(c *Ctx, r *Report) {
 		} else if reach(fn, nil, edgeSet(eq))[writes[0].Block()] {
 			bad = "the file is written on a path where the sizes were not found equal"
 		}
+		// the on-disk size of a CARv2's inner header is (position after reading it) - DataOffset
+		if bad == "" {
+			nsub := 0
+			eachInstr(fn, func(in ssa.Instruction) {
+				b, ok := in.(*ssa.BinOp)
+				if !ok || (b.Op != token.EQL && b.Op != token.NEQ) {
+					return
+				}
+				cur := b.X
+				if isNew(b.X) {
+					cur = b.Y
+				} else if !isNew(b.Y) {
+					return
+				}
+				for _, sub := range subtractionsFeeding(cur) {
+					nsub++
+					for _, o := range origins(sub.Y, originOpts{}) {
+						if o.Kind == "const" || (o.Kind == "field" && o.Field != nil && o.Field.Name() == "DataOffset") {
+							continue
+						}
+						bad = fmt.Sprintf("the on-disk header size is computed at %s by subtracting something other than Header.DataOffset from the file position: with data padding the inner header does not start right after the CARv2 header", c.Pos(sub.Pos()))
+					}
+				}
+			})
+			if bad == "" && nsub == 0 {
+				bad = "the on-disk size of a CARv2's inner header is not measured relative to Header.DataOffset (no subtraction found)"
+			}
+		}
 	}
 	// seek target before the write: 0 (v1) / DataOffset (v2)
 	if bad == "" {
@@ -164,7 +197,20 @@ func ruleR10b(c *Ctx, r *Report) {
 	}
 	isHdrField := func(v ssa.Value, f string) bool {
 		fv, base := fieldOfLoad(canon(v))
-		return fv != nil && fv.Name() == f && sameValue(base, hdr)
+		if fv == nil || fv.Name() != f {
+			return false
+		}
+		if sameValue(base, hdr) {
+			return true
+		}
+		// a by-value copy of the parsed header (argument of an inlined helper)
+		roots := structRoots(base)
+		for _, rt := range roots {
+			if !sameValue(rt, hdr) && rt != canon(hdr) {
+				return false
+			}
+		}
+		return len(roots) > 0
 	}
 	if bad == "" {
 		if !isHdrField(cps[0].Common().Args[2], "DataSize") {
@@ -329,3 +375,75 @@ func ruleR10d(c *Ctx, r *Report) {
 }
 
 var _ = ssa.Value(nil)
+
+// ruleR10e: which header fields can decide the outcome of ExtractV1File.
+func ruleR10e(c *Ctx, r *Report) {
+	fn, err := c.Func(modV2, "", "ExtractV1File")
+	if err != nil {
+		r.InfraFail("%v", err)
+		return
+	}
+	key := "header-fields-used@" + fnKey(fn)
+	used := map[string]string{}
+	seen := map[*ssa.Function]bool{}
+	var visit func(f *ssa.Function, depth int)
+	visit = func(f *ssa.Function, depth int) {
+		if seen[f] || depth > 3 {
+			return
+		}
+		seen[f] = true
+		for _, g := range withAnon(f) {
+			eachInstr(g, func(in ssa.Instruction) {
+				switch x := in.(type) {
+				case *ssa.FieldAddr:
+					if isNamed(x.X.Type(), modV2, "Header") || isNamed(derefType(x.X.Type()), modV2, "Header") {
+						if fv := fieldVar(x.X.Type(), x.Field); fv != nil {
+							if _, ok := used[fv.Name()]; !ok {
+								used[fv.Name()] = c.Pos(x.Pos())
+							}
+						}
+					}
+				case *ssa.Field:
+					if isNamed(x.X.Type(), modV2, "Header") {
+						if fv := fieldVar(x.X.Type(), x.Field); fv != nil {
+							if _, ok := used[fv.Name()]; !ok {
+								used[fv.Name()] = c.Pos(x.Pos())
+							}
+						}
+					}
+				case ssa.CallInstruction:
+					cf := calleeFunc(x.Common())
+					if cf == nil || funcIs(cf, modV2, "Header", "ReadFrom") {
+						return
+					}
+					if _, rn := recvTypeName(cf); rn == "Header" && cf.Pkg() != nil && cf.Pkg().Path() == modV2 {
+						if callee := c.Prog.FuncValue(cf); callee != nil {
+							visit(callee, depth+1)
+						}
+					}
+				}
+			})
+		}
+	}
+	visit(fn, 0)
+	var bad []string
+	for f, pos := range used {
+		if f != "DataOffset" && f != "DataSize" {
+			bad = append(bad, fmt.Sprintf("Header.%s (read at %s)", f, pos))
+		}
+	}
+	sort.Strings(bad)
+	if len(used) == 0 {
+		r.Undec(key, c.Pos(fn.Pos()), "no header field read found")
+		return
+	}
+	r.Check(len(bad) == 0, key, c.Pos(fn.Pos()), "only DataOffset and DataSize are read",
+		"extraction also reads "+strings.Join(bad, ", ")+": the payload of an archive without index (IndexOffset 0) or with unusual characteristics must extract exactly like any other")
+}
+
+func derefType(t types.Type) types.Type {
+	if p, ok := t.Underlying().(*types.Pointer); ok {
+		return p.Elem()
+	}
+	return t
+}
